@@ -90,6 +90,8 @@ func (in *c14Inst) mkTx(desc string, bal map[string]*big.Int) (pb.Transaction, *
 			amtStr = new(big.Int).Add(get(fa), big.NewInt(1)).String()
 		case "balmfee":
 			amtStr = new(big.Int).Sub(get(fa), c14FeeT).String()
+		case "leave9": // everything but the fee and 9 units: the sender is left unable to pay another fee
+			amtStr = new(big.Int).Sub(get(fa), new(big.Int).Add(c14FeeT, big.NewInt(9))).String()
 		case "huge":
 			amtStr = "10000000000000000000000000000000000000000"
 		}
@@ -288,7 +290,7 @@ func C14(c *mc.Ctx) {
 	alphabet := []string{
 		"xfer:rich:rich2:1", "xfer:rich:rich2:0", "xfer:rich:rich2:abc", "xfer:rich:rich2:huge", "xfer:rich:rich:5", "xfer:rich:rich2:-5",
 		"xfer:feem1:rich2:0", "xfer:fee:rich2:0", "xfer:feep1:rich2:1", "xfer:feep1:rich2:2", "xfer:feep9:rich2:balmfee", "xfer:feep9:rich2:bal",
-		"xfer:zero:rich2:1", "xfer:rich:admin:7", "xfer:admin:rich:3", "xfer:feep9:zero:-5", "xfer:rich:zero:balp1",
+		"xfer:zero:rich2:1", "xfer:rich:admin:7", "xfer:admin:rich:3", "xfer:admin:rich:leave9", "xfer:feep9:zero:-5", "xfer:rich:zero:balp1",
 		"store:rich", "badcall:rich", "badcall:feep9", "store:zero",
 		"xfer:rich:rich2:1+xfer:rich2:rich:1+xfer:feem1:rich:0", "xfer:feep9:rich2:9+xfer:feep9:rich2:1",
 	}
@@ -339,7 +341,7 @@ func C14(c *mc.Ctx) {
 	}
 	c14Grants(c)
 	fix.Cleanup()
-	c.Set("rule", "BFS over block histories (depth 2, thorough 3) of 23 block kinds: transfers with amount in {0,1,balance,balance+1,balance-fee,10^40,non-numeric,negative} between rich/poor/self/admin accounts whose balances sit at fee-1, fee, fee+1, fee+9, plus succeeding and failing contract calls and multi-tx blocks, plus every ordered pair (thorough: triple) of the single-transaction kinds as one block; per block: sum of persisted balances, sign of every balance, receipt verdicts and (for transfer-only blocks) every account balance against an arithmetic reference")
+	c.Set("rule", "BFS over block histories (depth 2, thorough 3) of 24 block kinds (incl. a governance admin - who shares in every fee - emptying its account down to 9 units and then sending a transaction whose fee it cannot pay): transfers with amount in {0,1,balance,balance+1,balance-fee,10^40,non-numeric,negative} between rich/poor/self/admin accounts whose balances sit at fee-1, fee, fee+1, fee+9, plus succeeding and failing contract calls and multi-tx blocks, plus every ordered pair (thorough: triple) of the single-transaction kinds as one block; per block: sum of persisted balances, sign of every balance, receipt verdicts and (for transfer-only blocks) every account balance against an arithmetic reference")
 	c.Assume("gas price 50000, 4 admins; the admin grant path (RegisterRole approval) is not in this alphabet")
 	if c.Get("blocks_with_exact_model") == 0 {
 		c.HarnessError("vacuous")
